@@ -1138,14 +1138,34 @@ def sf_voff(it, e, fr):
     return v.pieces[0].off
 
 
+def sf_vbefore(it, e, fr):
+    """the byte stored just before a view in its underlying buffer"""
+    v = it.eval(e.args[0], fr)
+    if not isinstance(v, VBytes) or len(v.pieces) != 1 or v.pieces[0].kind != 'view':
+        raise Unsupported('vbefore() of a value that is not a single view')
+    p = v.pieces[0]
+    return simp(z3.Select(p.arr(), to_z3(p.off) - 1))
+
+
 def sf_sameview(it, e, fr):
     from .interp import subview_formula
 
     return subview_formula(it.eval(e.args[0], fr), it.eval(e.args[1], fr))
 
 
+def sf_final(it, e, fr):
+    cur = fr.lookup('final!')
+    ffr = Frame(fr.globs, dict(cur), None, fr.contract, fr.module, fr.qualname)
+    for k, v in fr.locs.items():
+        if k not in ffr.locs:
+            ffr.locs[k] = v
+    return it.eval(e.args[0], ffr)
+
+
 SPEC_FORMS = {
+    'final': sf_final,
     'voff': sf_voff,
+    'vbefore': sf_vbefore,
     'subview': sf_sameview,
     'old': sf_old,
     'implies': sf_implies,
